@@ -805,6 +805,22 @@ def corpus(rep):
                       {'got': gotp, 'want': wantp, 'columns': [str(c) for c in p2.columns],
                        'repro': "p1=dd.from_pandas(df,2).pack_partitions(npartitions=2,p=4); "
                                 "p1.set_geometry('b').pack_partitions(npartitions=2,p=4).compute().index"})
+    # a real shuffle (unsorted key) keeps geo partitions with the active column
+    dfs = GeoDataFrame({'a': PointArray([[i, i] for i in range(n)]), 'v': [3, 1, 4, 1, 5, 9, 2, 6],
+                        'b': PointArray([[9 - i, i] for i in range(n)])}).set_geometry('b')
+    for opname, fn in (('DSortValues', lambda d: d.sort_values('v')), ('DSetIndex', lambda d: d.set_index('v'))):
+        r = fn(dd.from_pandas(dfs, npartitions=2))
+        import dask
+        parts = dask.compute(*r.to_delayed(), scheduler='synchronous')
+        rep.evaluations += 1
+        rep.nontrivial('corpus:shuffle:' + opname)
+        got = [(type(p_).__name__, getattr(p_, '_geometry', None)) for p_ in parts]
+        if any(g != ('GeoDataFrame', 'b') for g in got) or r._meta._geometry != 'b':
+            rep.violation('dask-state:' + opname,
+                          f'{opname[1:]} with a real shuffle: partitions are not GeoDataFrames with the active column',
+                          {'partitions': got, 'meta': r._meta._geometry,
+                           'repro': "dd.from_pandas(GeoDataFrame({'a':..,'v':[3,1,4,1,5,9,2,6],'b':..}).set_geometry('b'), 2)"
+                                    ".sort_values('v') -> partitions"})
     m = ddf.map_partitions(lambda d: d)
     rep.evaluations += 1
     if m._meta._geometry != 'b':
